@@ -883,6 +883,18 @@ def body(R):
             "with at most %d request points among the positions 0..L, L in %r" % (nd, kd, list(Ld)), True)
     drive(("fc",), range(nd, 6), (False,), Ld, lambda L: subsets_upto(L, kd))
 
+    # "every call returns in finite time": also when very many blocks wait in the input buffer (a request that handles one
+    # block per stack frame dies with RecursionError beyond ~1000 blocks)
+    Lv = 3000
+    R.scope("FillRequest.fill/request (thousands of buffered blocks)",
+            "fill/compute element x bufsize in {1, 2, 4} x buffer_input x reset, yield_on_remainder off: %d values filled, one "
+            "request() at the end (a block boundary)" % Lv, True)
+    for n in (1, 2, 4):
+        for reset in (True, False):
+            cfg = {"kind": "fc", "n": n, "buf": "in", "reset": reset, "yor": False, "m": 1}
+            sched = [0] * Lv + [1]
+            report(R, case_drive, "replay_drive", [cfg, make_flow(Lv, "ints"), sched])
+
     Lm = 6 if T else 4
     R.scope("FillRequest.fill/request (0 or 2 results per request, falsy values)",
             "fill/compute element with m in {0,2} results per request, and m=1 with falsy values in the flow; bufsize 1..3 x "
